@@ -14,7 +14,7 @@ LEVEL = 'fault_enumeration'
 EXHAUSTIVE = True
 TECHNIQUE = 'fault enumeration: n good records x every position k x 19 fault kinds x {VBS, 1014} x 3 codecs, plus Hypothesis message variety; expected record number and raw bytes derived from an independent framing and decoding of the faulty file'
 RULE = ('Files of n = 1..6 (thorough 1..12) good IPM records get one fault planted in record k for every k in 1..n: truncated '
-        'record, oversized length, inflated length, record body cut to 1/4/19/20 bytes, header only, garbage body, non-numeric MTI, undecodable MTI, unconfigured bitmap bit, non-digit length '
+        'record, oversized length (also 6001, 0x40404040, 0x20202020, 0x30303030, 0xf0f0f0f0, 0xffffffff, 0x80000000, 0x7fffffff, little-endian), inflated length, record body cut to 1/4/19/20 bytes, header only, garbage body, non-numeric MTI, undecodable MTI, unconfigured bitmap bit, non-digit length '
         'prefix, bad integer, bad date, trailing byte, bad PDS content, bad ICC content, negative length prefix; VBS and 1014; '
         'ascii, latin_1, cp500; message shapes enumerated and drawn by Hypothesis. Oracle: the reference framing of the faulty '
         'file + reference decoding of each record gives k and the raw bytes; IpmReader must deliver records 1..k-1 equal to the '
@@ -29,7 +29,9 @@ PACKAGED = gen_iso.packaged_config()
 CODECS = ['ascii', 'latin_1', 'cp500']
 KINDS = ['truncated', 'oversized-length', 'inflated-length', 'mti-nonnumeric', 'mti-undecodable', 'unconfigured-bit',
          'nondigit-prefix', 'bad-int', 'bad-date', 'trailing-byte', 'bad-pds', 'bad-icc', 'negative-prefix',
-         'short-body-1', 'short-body-4', 'short-body-19', 'short-body-20', 'header-only', 'garbage-body']
+         'short-body-1', 'short-body-4', 'short-body-19', 'short-body-20', 'header-only', 'garbage-body',
+         'length-max+1', 'length-40404040', 'length-20202020', 'length-30303030', 'length-f0f0f0f0', 'length-ffffffff',
+         'length-80000000', 'length-7fffffff', 'length-little-endian']
 
 
 def base_message(i):
@@ -55,6 +57,15 @@ def plant(kind, rec, codec, config):
         return bytes(rec), None, max(1, len(rec) // 2)
     if kind == 'oversized-length':
         return bytes(rec), 6001 + len(rec), None
+    if kind.startswith('length-'):
+        # particular unframeable length values: the maximum + 1, block fill / blanks / character zeros where the
+        # binary length belongs, the sign bit, the length written little-endian
+        what = kind[len('length-'):]
+        if what == 'max+1':
+            return bytes(rec), 6001, None
+        if what == 'little-endian':
+            return bytes(rec), int.from_bytes(len(rec).to_bytes(4, 'little'), 'big'), None
+        return bytes(rec), int(what, 16), None
     if kind == 'inflated-length':
         return bytes(rec), len(rec) + 3, None
     if kind == 'mti-nonnumeric':
